@@ -1116,10 +1116,30 @@ VEC6_GLOBAL = {"body_inertia_tensor", "body_subtreemass", "body_invweight0", "do
                "cam_pos0", "cam_poscom0", "cam_mat0", "light_pos0", "light_poscom0", "light_dir0"}
 
 
-def _rows_differ(a, b, tol):
+VEC6_CAP = 1e-3  # 6-digit rounding is 5e-6 relative per value; the largest amplification seen in derived arrays is ~15x (7e-5)
+
+
+def _rows_flagged(k, a, b, digits, extent):
+    """rows of array k in which compare() would flag an entry (same per-class rules, evaluated row by row)"""
+    full = digits >= 17
+    rtol = 0.0 if full else 10.0 ** (-(digits - 1))
     a2, b2 = a.reshape(a.shape[0], -1).astype(np.float64), b.reshape(b.shape[0], -1).astype(np.float64)
-    sc = max(float(np.abs(a2).max()) if a2.size else 0.0, 1e-300)
-    return (np.abs(a2 - b2) > tol * sc + 1e-13).any(axis=1)
+    ad = np.abs(a2 - b2)
+    if k in UNIT:
+        bad = ad > (TOL_UNIT if full else 4 * rtol)
+    elif k in DERIVED:
+        tol = TOL_DER if full else 1e3 * rtol
+        if a.dtype == np.float32:
+            tol = max(tol, 5e-7)
+        S = max(float(np.abs(a2).max()) if a2.size else 0.0, float(np.abs(b2).max()) if b2.size else 0.0)
+        if re.search(r"pos|aabb|rbound|vert|node|length", k):
+            S = max(S, extent)
+        bad = ad > tol * np.maximum(np.abs(a2), np.abs(b2)) + tol * S + 1e-25
+    else:
+        snap = (ad < SNAP) & (b2 == np.round(b2)) & (np.abs(b2) < 2 ** 31)
+        eps = 6e-8 if a.dtype == np.float32 else 0.0
+        bad = ((ad > 0) if full else (ad > (rtol + eps) * np.abs(a2))) & ~snap
+    return bad.any(axis=1)
 
 
 def confirm_vec6(m1, m2, t1, diffs, digits, align, ign=()):
@@ -1127,8 +1147,9 @@ def confirm_vec6(m1, m2, t1, diffs, digits, align, ign=()):
     (1) the saved text carries such a vector for an asset kind whose own arrays differ bit-wise between m1 and m2,
     (2) the differing array is one of those arrays or is computed from them (explicit list; geom/body rows must be rows
         of geoms/bodies that use such an asset),
-    (3) the difference vanishes when the same two models are compared under the 6-digit printed-precision rules, i.e.
-        it is bounded by 6-digit rounding of the written values."""
+    (3) the difference vanishes when the same two models are compared under the 6-digit printed-precision rules AND its
+        magnitude (normwise relative for derived arrays, element-wise relative for written ones, absolute for unit vectors)
+        is at most VEC6_CAP, i.e. it is bounded by 6-digit rounding of the written values."""
     if digits <= 6:
         return [], []
     roots = []
@@ -1151,18 +1172,21 @@ def confirm_vec6(m1, m2, t1, diffs, digits, align, ign=()):
     if "flex" in roots and "flex_vertbodyid" in m1.fields():
         vb = m1["flex_vertbodyid"]
         assetbody[vb[vb >= 0]] = True
+    sb = m1.stat_bytes()
+    extent = float(np.frombuffer(sb, dtype=np.float64)[3]) if len(sb) >= 32 else 1.0
     ok = []
     for x in diffs:
         k = x[1]
         if k in f6 or x[0] in ("size", "opt", "vis"):
             continue
+        if x[0] != "exact" and not (np.isfinite(x[3]) and x[3] <= VEC6_CAP):
+            continue  # larger than 6-digit rounding of the source values can explain
         if k in primary or k in VEC6_ASSET or k in VEC6_GLOBAL:
             ok.append(x)
         elif k in VEC6_GEOMROWS or k in VEC6_BODYROWS:
             linked = assetgeom if k in VEC6_GEOMROWS else assetbody
-            # rows of other geoms/bodies must agree to the tolerance of this precision mode
-            tol = TOL_DER if digits >= 17 else (4.0 if k in UNIT else 1e3 if k in VEC6_BODYROWS else 1.0) * 10.0 ** (-(digits - 1)) + 6e-8
-            if m1[k].shape == m2[k].shape and not (_rows_differ(m1[k], m2[k], tol) & ~linked).any():
+            # every row that compare() flags must be a row of a geom/body that uses the asset
+            if m1[k].shape == m2[k].shape and not (_rows_flagged(k, m1[k], m2[k], digits, extent) & ~linked).any():
                 ok.append(x)
     return (roots, ok) if ok else ([], [])
 
@@ -1463,16 +1487,15 @@ def roundtrip(P, L, c, spec, m1, name, tags, src):
                     # compiled arrays; m1 == m2 was established above and m2 == m3 is compared below - that is the verdict.
                     P.count("gen2_text_differs_saveinertial_geom_mass_0")
                 else:
-                    P.violation("second-generation-text-differs:%s" % (tagn.group(1) if tagn else "unknown"),
-                            {"case": c, "model": name, "only_in_first": only1, "only_in_second": only2})
+                    # text only (compiled arrays agree): observed, not judged - the statement is about the compiled model
+                    P.count("gen2_text_differs_models_equal:%s" % (tagn.group(1) if tagn else "unknown"))
         else:
             P.count("gen2_text_identical")
         if t3 != t2 and not align and _canon(t3) != _canon(t2) and not six_digit_vectors(t1) and "saveinertial" not in src:
             l2, l3 = _canon(t2).splitlines(), _canon(t3).splitlines()
             j = next((i for i in range(min(len(l2), len(l3))) if l2[i] != l3[i]), -1)
             tagn = re.match(r"\s*<(\w+)", l2[j] if j >= 0 else "")
-            P.violation("third-generation-text-not-a-fixpoint:%s" % (tagn.group(1) if tagn else "length"),
-                        {"case": c, "model": name, "second": l2[j][:300] if j >= 0 else None, "third": l3[j][:300] if j >= 0 else None})
+            P.count("gen3_text_not_a_fixpoint:%s" % (tagn.group(1) if tagn else "length"))   # text only, see above; m2 == m3 is compared below
         if not diffs and not align:
             d23, _ = compare(m2, m3, digits, align=align)
             if d23:
@@ -1544,7 +1567,7 @@ def _spec_worker(P, L, c):
             else:
                 only1 = [l for l in _lines(t1) if l not in set(_lines(t2))][:3] + ["---"] + [l for l in _lines(t2) if l not in set(_lines(t1))][:3]
                 tagn = re.match(r"<(\w+)", only1[0] if only1 else "<unknown")
-                P.violation("second-generation-text-differs:%s" % (tagn.group(1) if tagn else "unknown"), {"case": c, "only_in_first": only1, "ops": ops})
+                P.count("gen2_text_differs_models_equal:%s" % (tagn.group(1) if tagn else "unknown"))   # text only, not judged
         P.case("spec|%s|%s|%s" % (c.get("path_mode"), "full" if digits >= 17 else "printed", ",".join(sorted(tags))), sample={"ops": ops[:6], "digits": digits})
         P.count("roundtrips:specapi:%s" % ("full" if digits >= 17 else "printed"))
         m1.free()
